@@ -175,7 +175,14 @@ class New(cssutils.util._BaseClass):
             return expected
 
         elif context != 'attrib' and 'combinator' in expected:
-            self.append(seq, Constants.S, 'descendant', token=token)
+            i = len(seq) - 1
+            while i >= 0 and seq[i].type in ('COMMENT', 'S'):
+                i -= 1
+            if i >= 0 and i < len(seq) - 1 and seq[i].type == 'descendant':
+                # "a /**/ b": white space around comments is ONE combinator
+                self.append(seq, Constants.S, 'S', token=token)
+            else:
+                self.append(seq, Constants.S, 'descendant', token=token)
             return Constants.simple_selector_sequence + Constants.combinator
 
         else:
@@ -451,8 +458,8 @@ class New(cssutils.util._BaseClass):
                 self.append(seq, val, _names[val], token=token)
             # white space in front of comments is no combinator of its own
             i = len(seq) - 2
-            while i >= 0 and seq[i].type in ('COMMENT', 'descendant'):
-                if seq[i].type == 'descendant':
+            while i >= 0 and seq[i].type in ('COMMENT', 'descendant', 'S'):
+                if seq[i].type != 'COMMENT':
                     del seq[i]
                 i -= 1
             return Constants.simple_selector_sequence
